@@ -325,6 +325,41 @@ static void throwing_constructors() {
 	}
 }
 
+// ------------------------------------------------------------------ the owner inserts and erases while it walks the tree
+// (coalescing neighbours, splitting an entry ahead of the cursor): each step of the walk must yield the smallest key that is present
+// at that moment and larger than the previous one - an erased key ahead of the cursor is not visited, an inserted one is
+static void modify_while_iterating() {
+	if(!want_mode("iterate-modify") || !g_model_armed) return;
+	Rng r(derive_seed("iterate-modify"));
+	for(uint64_t c = opt.shard; c < scaled(400, 8000); c += opt.nshards) {
+		begin_case("iterate-modify", c);
+		g_bad = false; g_trace.clear();
+		guarded(g_prop.c_str(), [&] {
+			frg::rcu_radixtree<ThrowVal, PlainAlloc> tree{PlainAlloc{}};
+			std::set<uint64_t> model;
+			uint64_t base = (r.next() & ~0xFFull);
+			auto key = [&] { return r.chance(3, 4) ? base + r.below(48) : base + (r.below(6) << 8) + r.below(16); }; // three adjacent leaves + a few further ones
+			for(int i = 0; i < 24; i++) { uint64_t k = key(); if(model.insert(k).second) tree.insert(k, k, false); }
+			bool have_last = false; uint64_t last = 0; size_t steps = 0;
+			for(auto it = tree.begin(); it != tree.end() && !g_bad; ++it) {
+				auto exp = have_last ? model.upper_bound(last) : model.begin();
+				if(exp == model.end() || it->key != *exp) { fail("iter-live", strf("while the owner modifies the tree during the walk, step %zu yields key %016llx but the smallest present key after the previous one is %s", steps, (unsigned long long)it->key, exp == model.end() ? "none" : strf("%016llx", (unsigned long long)*exp).c_str())); break; }
+				last = it->key; have_last = true; steps++;
+				// modify ahead of and behind the cursor
+				for(int m = 0; m < 2; m++) {
+					uint64_t k = key();
+					if(k == last) continue;
+					if(model.count(k)) { if(r.chance(1, 2)) { g_trace += strf("erase(%016llx)@%zu ", (unsigned long long)k, steps); tree.erase(k); model.erase(k); } }
+					else { g_trace += strf("insert(%016llx)@%zu ", (unsigned long long)k, steps); tree.insert(k, k, false); model.insert(k); }
+				}
+				if(steps > 500) { fail("iter-live", "the walk does not end"); break; }
+			}
+			if(!g_bad && have_last && model.upper_bound(last) != model.end()) fail("iter-missing", "the walk ended although a larger key is present");
+		});
+		note_distinct(mix(hash_str("iterate-modify"), c)); count("iterate_while_modifying_cases");
+	}
+}
+
 int main(int argc, char **argv) {
 	parse_args(argc, argv, "c09_radix");
 	if(opt.replay_arg.find("prop=C16") != std::string::npos) g_prop = "C16";
@@ -341,6 +376,7 @@ int main(int argc, char **argv) {
 	random_histories("rand:large", scaled(8, 300), t ? 20000 : 4000, 0);
 	construction_consistency();
 	throwing_constructors();
+	modify_while_iterating();
 	sample("exh:4: keys {B, B^8<<60 (differs at the most significant nibble), B+1, 0} inserted in every order (insert / find_or_insert alternating), all finds + iteration after each step, then erase/re-insert");
 	sample("rand:large: 4000 (thorough 20000) ops of insert/find_or_insert/find/erase/re-insert over keys from {adversarial pool, random, short, neighbours differing in one nibble}");
 	return finish();
